@@ -34,6 +34,8 @@ type Profile struct {
 	WideFanIn  int // if >0: probability (percent) of a wide fan-in shape with up to 40 producers
 	MaxDelayMs int
 	Gates      bool
+	// PreferProduced is the percentage of references biased towards outputs the scripted outcomes produce.
+	PreferProduced int
 	// NeverOK allows never-ending steps only where the reference says no output is pending on them.
 	NeverOK bool
 	// IntArithOnOutputs allows arithmetic / int functions over integers produced by plugins
@@ -133,6 +135,26 @@ func (g *genCtx) genExpr(typ string, depth int, label string) *Expr {
 				}
 			}
 		case "int":
+			if g.p.Faults {
+				switch rapid.IntRange(0, 3).Draw(g.t, label+".faultkind") {
+				case 0:
+					if a := g.genIntNoPlugin(depth-1, label+".a"); a != nil {
+						op := rapid.SampledFrom([]string{"/", "%"}).Draw(g.t, label+".divop")
+						g.label("fault:div")
+						return &Expr{K: "bin", Op: op, Args: []*Expr{a, {K: "lit", Lit: IntLit(rapid.Int64Range(0, 2).Draw(g.t, label+".div"))}}}
+					}
+				case 1:
+					if a := g.genExpr("string", depth-1, label+".a"); a != nil {
+						g.label("fault:stringToInt")
+						return &Expr{K: "call", Fn: "stringToInt", Args: []*Expr{a}}
+					}
+				case 2:
+					if a := g.genExpr("list_int", 0, label+".a"); a != nil && (a.K == "in" || g.p.IntArithOnOutputs) {
+						g.label("fault:index")
+						return &Expr{K: "idx", Args: []*Expr{a}, Index: rapid.Int64Range(-3, 3).Draw(g.t, label+".idx")}
+					}
+				}
+			}
 			if a := g.genIntNoPlugin(depth-1, label+".a"); a != nil {
 				op := rapid.SampledFrom([]string{"+", "-", "*"}).Draw(g.t, label+".op")
 				g.label("op:arith")
@@ -146,6 +168,17 @@ func (g *genCtx) genExpr(typ string, depth int, label string) *Expr {
 			}
 		}
 	}
+	if g.p.PreferProduced > 0 && rapid.IntRange(0, 99).Draw(g.t, label+".likely?") < g.p.PreferProduced {
+		var lk []source
+		for _, c := range cands {
+			if g.likely(c) {
+				lk = append(lk, c)
+			}
+		}
+		if len(lk) > 0 {
+			cands = lk
+		}
+	}
 	s := cands[rapid.IntRange(0, len(cands)-1).Draw(g.t, label+".src")]
 	if s.optional {
 		g.label("ref:optional")
@@ -154,6 +187,32 @@ func (g *genCtx) genExpr(typ string, depth int, label string) *Expr {
 		g.label("ref:engine-output")
 	}
 	return s.expr
+}
+
+// likely reports whether the source will probably be produced given the scripted outcomes so far.
+func (g *genCtx) likely(s source) bool {
+	e := s.expr
+	if e.K == "in" {
+		return true
+	}
+	oc, ok := g.outcome[e.Step]
+	if !ok {
+		return false
+	}
+	switch e.Stage {
+	case "outputs":
+		if e.K == "stage" {
+			return oc == "success" || oc == "error" || oc == "alt"
+		}
+		return oc == e.Output
+	case "crashed":
+		return oc == "crash" || oc == "bad_output"
+	case "deploy_failed":
+		return oc == "deployfail"
+	case "enabling", "starting":
+		return oc != "deployfail"
+	}
+	return false
 }
 
 // genIntNoPlugin returns an int expression that is safe for arithmetic (see Profile.IntArithOnOutputs).
@@ -409,6 +468,7 @@ func (g *genCtx) genStep(c *Case, i int, wide bool) {
 	}
 	if p.Foreach && !wide && rapid.IntRange(0, 9).Draw(t, lbl+".foreach?") < 2 {
 		g.genForeach(c, s, lbl)
+		g.outcome[id] = "success"
 		g.prog.Steps = append(g.prog.Steps, s)
 		g.addStepSources(s, "")
 		return
@@ -492,6 +552,12 @@ func (g *genCtx) genStep(c *Case, i int, wide bool) {
 			g.script.Deploys["vp://"+id] = vplug.DeployBehaviour{BadWritesRun: true}
 			g.label("deploy:badwrites")
 		}
+	}
+	g.outcome[id] = outcome
+	if d := g.script.Deploys["vp://"+id]; d.FailRun {
+		g.outcome[id] = "deployfail"
+	} else if d.MismatchRun || d.BadWritesRun {
+		g.outcome[id] = "crash"
 	}
 	g.prog.Steps = append(g.prog.Steps, s)
 	g.addStepSources(s, outcome)
